@@ -130,12 +130,26 @@ def skeletons(nmax):
     return out
 
 
-def explore_input(query, doc, cap=CAP):
+def compiled(query, flag="subclass"):
+    """how the flag is switched on: by subclassing, or on a plain instance before / after compile"""
+    if flag == "subclass":
+        return env().compile(query)
+    from jsonpath_rfc9535 import JSONPathEnvironment
+    e = JSONPathEnvironment()
+    if flag == "instance-before-compile":
+        e.nondeterministic = True
+        return e.compile(query)
+    cq = e.compile(query)
+    e.nondeterministic = True
+    return cq
+
+
+def explore_input(query, doc, cap=CAP, flag="subclass"):
     """-> (results:set, executions, capped, first invalid (trace, result) | None, P)"""
     v = rt.classify(query)
     assert v.cls == "valid"
     P = ev.permitted(v.ast, doc)
-    cq = env().compile(query)
+    cq = compiled(query, flag)
     results = set()
     invalid = None
     with choice.controlled(modules()) as ctl:
@@ -151,15 +165,15 @@ def explore_input(query, doc, cap=CAP):
         return results, ctl.executions, capped, invalid, P, ctl.points
 
 
-def replay_choices(query, doc, answers):
-    cq = env().compile(query)
+def replay_choices(query, doc, answers, flag="subclass"):
+    cq = compiled(query, flag)
     with choice.controlled(modules()) as ctl:
         ctl.chooser.start(answers)
         return tuple(n.location for n in cq.find(doc))
 
 
-def check_input(query, doc, sh=None, cap=CAP):
-    results, execs, capped, invalid, P, points = explore_input(query, doc, cap=cap)
+def check_input(query, doc, sh=None, cap=CAP, flag="subclass"):
+    results, execs, capped, invalid, P, points = explore_input(query, doc, cap=cap, flag=flag)
     if sh is not None:
         sh.states += points + execs
         sh.transitions += points
@@ -173,14 +187,15 @@ def check_input(query, doc, sh=None, cap=CAP):
         sh.bump("permitted_orderings", len(P))
     out = []
     jd = impl.jsonable(doc)
+    extra = {} if flag == "subclass" else {"flag": flag}
     if invalid is not None:
         answers, res = invalid
-        out.append(violation("invalid-ordering", {"query": query, "doc": jd, "choices": answers},
+        out.append(violation("invalid-ordering", dict({"query": query, "doc": jd, "choices": answers}, **extra),
                              {"permitted_orderings": len(P), "example": [list(x) for x in sorted(P)[0]]},
                              {"result": [list(x) for x in res]}, "invalid-order"))
     if not capped and results != P and results <= P:
         missing = sorted(P - results)
-        out.append(violation("not-exhaustive", {"query": query, "doc": jd},
+        out.append(violation("not-exhaustive", dict({"query": query, "doc": jd}, **extra),
                              {"permitted_orderings": len(P)},
                              {"produced": len(results), "missing_example": [list(x) for x in missing[0]]},
                              f"missing:{len(missing)}/{len(P)}"))
@@ -193,14 +208,14 @@ def check_case(case):
         v = rt.classify(case["query"])
         P = ev.permitted(v.ast, doc)
         try:
-            res = replay_choices(case["query"], doc, case["choices"])
+            res = replay_choices(case["query"], doc, case["choices"], case.get("flag", "subclass"))
         except choice.Divergence as e:
             return violation("invalid-ordering", case, "replayable", {"divergence": str(e)}, "invalid-order")
         if res not in P:
             return violation("invalid-ordering", case, {"permitted_orderings": len(P)},
                              {"result": [list(x) for x in res]}, "invalid-order")
         return None
-    for v in check_input(case["query"], doc):
+    for v in check_input(case["query"], doc, flag=case.get("flag", "subclass")):
         if v["kind"] == "not-exhaustive":
             return v
     return None
@@ -222,6 +237,11 @@ def run_shard(desc):
                 continue  # descendant segments over wide documents: choice trees beyond any cap
             for v in check_input(q, doc, sh):
                 sh.violation(v)
+            # the flag switched on on a plain instance, before or after the query was compiled
+            if desc["i"] in (0, 3, 5):
+                for flag in ("instance-before-compile", "instance-after-compile"):
+                    for v in check_input(q, doc, sh, flag=flag):
+                        sh.violation(v)
         sh.sample({"query": WIDE_QUERIES[0], "doc": impl.jsonable(doc)}, limit=1)
     elif desc["part"] == "skeleton":
         docs = skeletons(desc["max"])[desc["lo"]:desc["hi"]]
@@ -240,7 +260,14 @@ def run_shard(desc):
     else:
         fix = os.path.join(os.path.dirname(os.path.dirname(os.path.dirname(os.path.abspath(__file__)))),
                            "fixtures", "nondeterminism.json")
-        for c in json.load(open(fix, encoding="utf8")):
+        cases = json.load(open(fix, encoding="utf8"))
+        # the same inputs with the flag switched on on a plain instance before / after compiling
+        for c in list(cases):
+            if len(json.dumps(c["data"])) < 40:
+                for flag in ("instance-before-compile", "instance-after-compile"):
+                    for v in check_input(c["query"], c["data"], sh, cap=20000, flag=flag):
+                        sh.violation(v)
+        for c in cases:
             results, execs, capped, invalid, P, points = explore_input(c["query"], c["data"], cap=20000)
             sh.states += points + execs
             sh.transitions += points
